@@ -25,7 +25,9 @@ pub mod ribq;
 pub mod gate;
 pub mod roto;
 pub mod manager;
+pub mod httppages;
 pub mod ribmetrics;
+pub mod rotorib;
 
 /// A pause-point handler installed per thread by a harness.
 pub type PointFn = Arc<dyn Fn(&'static str) + Send + Sync>;
